@@ -9,7 +9,7 @@
 #                  the agent table's RemoveRoute is nondeterministic on metric ties, so a precomputed path could
 #                  not be followed).  Helper kept here instead of lib/vf.py: build_graph().
 #   traces()       code -> spec: seeded random histories with lookups as events, validated by TraceRouteTable.tla
-import os, json
+import os, json, glob, shutil, subprocess, time
 import vf
 
 HFILES = ["common/common_test.go.tmpl", "routing/routetable_test.go"]
@@ -60,7 +60,18 @@ CFGS = {
     "cidr-loc": C(Tables=["cidr"], CidrKeys="K_cidr_mtT", CidrQ="Q_cidr", Orig=["a"], Peer=["p"], Metrics=[0], Seqs=[1],
                   PathKinds=["clean"], LocalMetrics=[0, 2], MaxLSeq=2, MaxEntries=2),
     "dom-loc": C(Tables=["dom"], DomKeys="K_dom_mt", DomQ="Q_dom", Orig=["a"], Peer=["p"], Metrics=[0], Seqs=[1],
-                 PathKinds=["clean"], CaseVars=[0, 1], LocalMetrics=[0, 2], MaxLSeq=2, MaxEntries=2),
+                 PathKinds=["clean"], CaseVars=[0, 1], LocalMetrics=[0], MaxLSeq=2, MaxEntries=2),
+    # ---- thorough
+    "cidr-lkT": C(Tables=["cidr"], CidrKeys="K_cidr_lkT", CidrQ="Q_cidr", Orig=["a", "b"], Peer=["p"], Seqs=[0],
+                  PathKinds=["clean"], MaxEntries=3, Aging=False),
+    "dom-lkT": C(Tables=["dom"], DomKeys="K_dom_lkT", DomQ="Q_dom", Orig=["a", "b"], Peer=["p"], Seqs=[0],
+                 PathKinds=["clean"], CaseVars=[0], MaxEntries=3, Aging=False),
+    "cidr-mtT": C(Tables=["cidr"], CidrKeys="K_cidr_mtT", CidrQ="Q_cidr", PathKinds=["clean", "loop", "none"]),
+    "dom-mtT": C(Tables=["dom"], DomKeys="K_dom_mt", DomQ="Q_dom"),
+    "fwd-mtT": C(Tables=["fwd"], FwdKeys=["web", "WEB"]),
+    "agt-mtT": C(Tables=["agt"], AgtKeys=["a"], Orig=["a", "c"], MaxEntries=2),
+    "cidr-locT": C(Tables=["cidr"], CidrKeys="K_cidr_mt", CidrQ="Q_cidr", Orig=["a", "L"], Peer=["p"], Metrics=[0], Seqs=[1, 2],
+                   PathKinds=["clean", "none"], LocalMetrics=[0, 2], MaxLSeq=3, MaxEntries=2),
     "fwd-loc": C(Tables=["fwd"], FwdKeys=["web", "WEB"], Orig=["a"], Peer=["p"], Metrics=[0], Seqs=[1],
                  PathKinds=["clean"], LocalMetrics=[0, 2], MaxLSeq=2, MaxEntries=2),
 }
@@ -89,3 +100,248 @@ def run_cfg(ctx, name, dev=(), emit=True, expect_violation=False):
     c = CFGS[name]
     return ctx.tlc("MCRouteTable", "MC-%s.cfg" % name, files={"MC-%s.cfg" % name: cfg_text(c, dev, emit)},
                    expect_violation=expect_violation, name="RouteTable-" + name, workers=4)
+
+
+PROPS += " AdvertKeepsOthers"
+
+# cfg used to show that TLC catches a deviation
+DEVCFG = {"DevLookupAnyPrefix": "cidr-lk", "DevLookupIgnoreMetric": "cidr-lk", "DevWildcardDeep": "dom-lk",
+          "DevWildcardFirst": "dom-lk", "DevCaseSensitive": "dom-lk", "DevKeyIgnoreMetric": "fwd-lk",
+          "DevReplaceEqual": "cidr-mt", "DevReplaceOlder": "fwd-mt", "DevStoreLoop": "dom-mt",
+          "DevDisconnectByOrigin": "cidr-mt", "DevDisconnectWholeKey": "agt-mt", "DevCleanupLocal": "fwd-loc",
+          "DevAgentSlotNoNextHop": "agt-mt"}
+
+
+def run_many(ctx, jobs, par=6, timeout=1500):
+    """Run several TLC instances concurrently (the bounded instances are independent and JVM start-up dominates the
+    small ones).  jobs: list of (cfg name, dev list, emit, expect_violation).  Returns the TLCResults in order.
+    Local helper (lib/vf.py's ctx.tlc runs one instance at a time); same scratch layout, parser and error rules."""
+    procs, results = [], [None] * len(jobs)
+    pending = list(enumerate(jobs))
+    running = []
+    t0 = time.time()
+    workers = 2 if ctx.quick() else 4
+
+    def start(i, job):
+        name, dev, emit, _ = job
+        d = ctx.scratch("tlcp-%d-%s" % (i, name))
+        for f in glob.glob(os.path.join(vf.SPEC, "*")):
+            if os.path.isfile(f):
+                shutil.copy(f, d)
+        with open(os.path.join(d, "MC.cfg"), "w") as f:
+            f.write(cfg_text(CFGS[name], dev, emit))
+        cmd = ["java", "-XX:+UseParallelGC", "-Xss64m", "-Xmx3g", "-cp", vf.TLA_CP, "tlc2.TLC", "-config", "MC.cfg",
+               "-metadir", os.path.join(d, "states"), "-workers", str(workers), "-noGenerateSpecTE", "-deadlock",
+               "MCRouteTable.tla"]
+        e = dict(os.environ)
+        e.pop("JAVA_TOOL_OPTIONS", None)
+        out = open(os.path.join(d, "tlc.out"), "w")
+        return (i, job, subprocess.Popen(cmd, cwd=d, env=e, stdout=out, stderr=subprocess.STDOUT), out, time.time(), d)
+
+    while pending or running:
+        while pending and len(running) < par:
+            i, job = pending.pop(0)
+            running.append(start(i, job))
+        time.sleep(0.2)
+        still = []
+        for (i, job, p, out, t, d) in running:
+            if p.poll() is None:
+                if time.time() - t > timeout:
+                    p.kill()
+                    raise vf.Infra("TLC timeout on RouteTable/%s" % job[0])
+                still.append((i, job, p, out, t, d))
+                continue
+            out.close()
+            with open(os.path.join(d, "tlc.out"), errors="replace") as f:
+                text = f.read()
+            res = vf.TLCResult()
+            res.rc, res.out, res.wall = p.returncode, text, time.time() - t
+            vf.parse_tlc_output(text, res)
+            name, dev, emit, expect = job
+            bad = [pat for pat in ("Parsing or semantic analysis failed", "java.lang.OutOfMemoryError", "StackOverflowError",
+                                   "TLC threw an unexpected exception", "Error: TLC encountered", "was not found",
+                                   "Error: Evaluating", "Error: The configuration file", "Error: In evaluation",
+                                   "Error: Attempted to", "Error: TLC was unable", "Unknown operator", "Error: Parsing")
+                   if pat in text]
+            if (bad and res.violated is None) or (not res.ok and res.violated is None):
+                ctx._keep_log(d, text, "RouteTable-" + name)
+                raise vf.Infra("TLC failure on RouteTable/%s %s:\n%s" % (name, bad, "\n".join(text.splitlines()[-30:])))
+            ctx.log("TLC RouteTable/%s%s: %d generated, %d distinct, %d edges, %.1fs%s" % (
+                name, (" Dev=" + ",".join(dev)) if dev else "", res.generated, res.distinct, len(res.edges), res.wall,
+                (" VIOLATED " + str(res.violated)) if res.violated else ""))
+            if res.violated and not expect:
+                ctx._keep_log(d, text, "RouteTable-" + name)
+            results[i] = res
+        running = still
+    ctx.log("%d TLC runs in %.1fs" % (len(jobs), time.time() - t0))
+    return results
+
+
+def model_and_sensitivity(ctx, pid, names):
+    """TLC: the ideal spec holds on every named cfg (exhaustive, with edge + answer emission) and every deviation
+    that belongs to the property is caught.  Returns ({cfg: result}, {deviation: violated property})."""
+    devs = [d for d, (p, _) in sorted(DEVS.items()) if p == pid]
+    jobs = [(n, [], True, False) for n in names] + [(DEVCFG[d], [d], False, True) for d in devs]
+    res = run_many(ctx, jobs)
+    results, caught = {}, {}
+    for n, r in zip(names, res):
+        if r.violated:
+            raise vf.Infra("ideal RouteTable spec violates %s on cfg %s (specification error)" % (r.violated, n))
+        results[n] = r
+    for d, r in zip(devs, res[len(names):]):
+        if not r.violated:
+            raise vf.Infra("deviation %s is not detected by the invariants/properties (vacuous model)" % d)
+        caught[d] = r.violated
+    return results, caught
+
+
+def build_graph(name, res):
+    """EDGE + LK records of one TLC run -> the graph structure the Go walker reads."""
+    c = CFGS[name]
+    ids, nodes = {}, []
+
+    def nid(s):
+        k = vf.canon(s)
+        if k not in ids:
+            ids[k] = len(nodes)
+            nodes.append(s)
+        return ids[k]
+
+    groups = {}
+    for e in res.edges:
+        s, t = nid(e["s"]), nid(e["t"])
+        a = dict(e["a"])
+        r = a.pop("res")
+        g = groups.setdefault(s, {}).setdefault(vf.canon(a), {"a": a, "alts": {}})
+        g["alts"][(vf.canon(r), t)] = {"res": r, "t": t}
+    lk = [None] * len(nodes)
+    for tag, o in res.prints:
+        if tag == "LK":
+            k = vf.canon(o["s"])
+            if k in ids:
+                lk[ids[k]] = o["lk"]
+    if any(x is None for x in lk):
+        raise vf.Infra("cfg %s: %d states without lookup answers" % (name, sum(1 for x in lk if x is None)))
+    init = [i for i, s in enumerate(nodes) if all(not s[k] for k in s)]
+    if len(init) != 1:
+        raise vf.Infra("cfg %s: initial state not found" % name)
+    out = [[{"a": g["a"], "alts": list(g["alts"].values())} for g in groups.get(i, {}).values()] for i in range(len(nodes))]
+    agents = sorted(set(c["Orig"]) | set(c["Peer"]) | set(c["AgtKeys"]) - {"L"})
+    nedges = sum(len(g["alts"]) for gs in groups.values() for g in gs.values())
+    nondet = sum(1 for gs in groups.values() for g in gs.values() if len(g["alts"]) > 1)
+    return {"name": name, "w": 2, "agents": agents, "orig_has_l": "L" in c["Orig"], "casevars": c["CaseVars"],
+            "nodes": nodes, "init": init[0], "out": out, "lk": lk}, nedges, nondet
+
+
+def replay(ctx, results):
+    """spec -> code.  Returns (summaries per cfg, state mismatches, lookup mismatches, totals)."""
+    graphs, nedges, nondet = [], 0, 0
+    for n, r in results.items():
+        g, ne, nd = build_graph(n, r)
+        graphs.append(g)
+        nedges += ne
+        nondet += nd
+    if os.environ.get("VERIF_SELFTEST_CORRUPT_GRAPH"):
+        # binding self-test: falsify one expected call result and one expected lookup answer of the first graph;
+        # the run must then end with VIOLATION (C10 for the result, C08/C09 for the answer)
+        g = graphs[0]
+        done = False
+        for grp in (x for gs in g["out"] for x in gs):
+            if grp["alts"][0]["res"] is True and not done:
+                grp["alts"][0]["res"] = False
+                done = True
+        for lk in g["lk"]:
+            hit = [q for t in ("cidr", "dom", "fwd", "agt") for q in lk[t] if q["ok"]]
+            if hit:
+                hit[0]["ok"] = []
+                break
+    inp = os.path.join(ctx.work, "routetable_graphs.json")
+    vf.write_json(inp, {"graphs": graphs, "maxlen": 80})
+    r = ctx.gotest("routing", HFILES, "^TestZZVRouteWalk$", env={"ZZV_IN": inp})
+    summ = {s["graph"]: s for s in r.of("summary")}
+    if set(summ) != set(results):
+        raise vf.Infra("replay harness produced no summary for %s:\n%s" % (sorted(set(results) - set(summ)), r.out[-2000:]))
+    for n, s in summ.items():
+        if s["uncovered"] and not s["mismatches"]:
+            raise vf.Infra("replay of %s left %d of %d (state, action) pairs unexecuted" % (n, s["uncovered"], s["groups"]))
+    return summ, r.of("mismatch"), r.of("lkmismatch"), {"edges": nedges, "nondet_groups": nondet}
+
+
+def lk_kind(mm):
+    if mm["real"] == "nothing":
+        return "missed"
+    if not mm["acceptable"]:
+        return "unexpected-hit"
+    return "wrong-route"
+
+
+def report_replay(ctx, pid, mism, lkmism):
+    """Findings of this property; findings that belong to a sibling property are only logged."""
+    other = 0
+    for mm in mism:
+        a = mm["a"]
+        key = "RouteTable:%s:%s" % (a["act"], a.get("tbl") or {"C": "cidr", "D": "dom", "F": "fwd"}.get(a["act"][-4:-3], "cidr"))
+        what = "routing.Manager %s %s in state [%s]: real result %s, real state [%s]; the spec allows %s" % (
+            a["act"], json.dumps({k: v for k, v in a.items() if k != "act"}), mm["s"], mm["real_res"], mm["real_t"],
+            json.dumps(mm["spec"]))
+        if pid == "C10":
+            ctx.finding(key, what, mm)
+        else:
+            other += 1
+            ctx.log("note (C10's domain):", what[:300])
+    for mm in lkmism:
+        owner = "C08" if mm["tbl"] == "cidr" else "C09"
+        key = "RouteTable:Lookup:%s:%s" % (mm["tbl"], lk_kind(mm))
+        what = "%s lookup of %s (%s, case variant %d) returned %s; acceptable per the statement: %s; table: [%s]" % (
+            mm["tbl"], mm["text"], json.dumps(mm["q"]), mm["cv"], mm["real"], mm["acceptable"] or "nothing", mm["state"])
+        if pid == owner:
+            ctx.finding(key, what, mm)
+        else:
+            other += 1
+            ctx.log("note (%s's domain):" % owner, what[:300])
+    return other
+
+
+def traces(ctx, pid, tables, ntraces, nops, name):
+    """code -> spec.  Returns (harness summary, validation result dict)."""
+    out = os.path.join(ctx.work, name + ".ndjson")
+    env = {"ZZV_OUT": out, "ZZV_TRACES": ntraces, "ZZV_OPS": nops, "ZZV_TABLES": ",".join(tables)}
+    if os.environ.get("VERIF_SELFTEST_CORRUPT"):
+        env["ZZV_CORRUPT"] = os.environ["VERIF_SELFTEST_CORRUPT"]   # binding self-test: falsify one logged event
+    r = ctx.gotest("routing", HFILES, "^TestZZVRouteTrace$", env=env)
+    summ = r.of("summary")
+    if not summ:
+        raise vf.Infra("trace harness produced no summary")
+    v = ctx.validate_trace("TraceRouteTable", "TraceRouteTable.cfg", out, name=name, timeout=1800)
+    return summ[0], v
+
+
+def report_trace(ctx, pid, v):
+    if v["accepted"]:
+        return 0
+    if v["violated"] != "rejected":
+        # an invariant / action property of the spec failed on a state of the recorded execution (maintenance rules)
+        what = "a recorded execution of the real routing.Manager violates %s of RouteTable.tla" % v["violated"]
+        if pid == "C10":
+            ctx.finding("RouteTable:trace-invariant:%s" % v["violated"], what, {"tlc_tail": v["res"].out[-3000:]})
+            return 0
+        ctx.log("note (C10's domain):", what)
+        return 1
+    ev = v["event"] or {}
+    if ev.get("ev") == "Lookup":
+        owner = "C08" if ev.get("tbl") == "cidr" else "C09"
+        key = "RouteTable:trace-lookup:%s:%s" % (ev.get("tbl"), "hit" if ev.get("hit") else "miss")
+        what = "recorded %s lookup %s (case variant %s) answered %s, which is outside the acceptable set of the " \
+               "statement's oracle on the table recorded just before (event #%d)" % (
+                   ev.get("tbl"), json.dumps(ev.get("q")), ev.get("cv"),
+                   json.dumps(ev.get("res")) if ev.get("hit") else "nothing", v["hw"])
+    else:
+        owner = "C10"
+        key = "RouteTable:trace-rejected:%s:%s" % (ev.get("ev"), ev.get("tbl", ""))
+        what = "recorded execution is not a behaviour of RouteTable.tla: event #%d %s cannot be matched" % (
+            v["hw"], json.dumps(ev)[:600])
+    if owner == pid:
+        ctx.finding(key, what, {"event_index": v["hw"], "event": ev, "context": v["context"]})
+        return 0
+    ctx.log("note (%s's domain): %s" % (owner, what[:300]))
+    return 1
